@@ -106,7 +106,9 @@ def build_harness(bins=None, timeout=3000):
     with open(lock, "w") as lf:
         fcntl.flock(lf, fcntl.LOCK_EX)
         t = time.time()
-        p = sh(cmd, cwd=HARNESS, timeout=timeout, check=False)
+        # the binaries are looked up under harness/target: never let the caller's environment move them
+        p = sh(cmd, cwd=HARNESS, timeout=timeout, check=False,
+               env={"CARGO_TARGET_DIR": os.path.join(HARNESS, "target"), "RUSTFLAGS": ""} if False else {"CARGO_TARGET_DIR": os.path.join(HARNESS, "target")})
         if p.returncode != 0:
             raise ToolError("harness build failed:\n" + p.stdout[-6000:])
         log("[build] harness %s built in %.1fs" % (tag, time.time() - t))
